@@ -83,6 +83,7 @@ type CacheCfg struct {
 	Stripes     int     `json:"stripes"`
 	Workers     int     `json:"workers,omitempty"`
 	Prob        float32 `json:"prob,omitempty"`
+	Reenter     bool    `json:"reenter,omitempty"` // hybrid: the secondary store's error handler calls back into the cache
 	Parallelism int     `json:"par"`
 }
 
